@@ -213,6 +213,7 @@ type Case struct {
 	Index       string     `json:"index,omitempty"`       // index file name, default "set.par2"
 	ForeignVol  bool       `json:"foreign_vol,omitempty"` // a volume of another recovery set named <base>.zforeign.par2
 	DupVol      bool       `json:"dup_vol,omitempty"`     // a copy of the first recovery file named <base>.dup.par2
+	CorruptVol  int        `json:"corrupt_vol,omitempty"` // 1+index of a recovery file in which one byte is flipped (0 = none)
 }
 
 // Obs is everything observed when running a Case.
@@ -343,6 +344,14 @@ func Run(c Case, skipRepair bool) *Obs {
 		if del[i] {
 			os.Remove(filepath.Join(dir, v))
 			continue
+		}
+	}
+	if c.CorruptVol > 0 && len(o.VolFiles) > 0 {
+		vn := o.VolFiles[(c.CorruptVol-1)%len(o.VolFiles)]
+		if !del[(c.CorruptVol-1)%len(o.VolFiles)] {
+			b := append([]byte{}, o.Outputs[vn]...)
+			b[len(b)-3] ^= 0x04
+			os.WriteFile(filepath.Join(dir, vn), b, 0o644)
 		}
 	}
 	base := strings.TrimSuffix(c.IndexName(), ".par2")
